@@ -71,7 +71,11 @@ def _cases(draw, tier):
             st.sampled_from([2, 3, 4, 9]))))
     order2 = list(draw(st.permutations(opts['order'])))
     choices = draw(strategies.choice_lists) if mode != 'cbc' else []
-    return {'inst': inst, 'opts': opts, 'order2': order2, 'choices': choices, 'mode': mode, 'salt': salt}
+    decoy = _lp.draw_decoy(draw, inst)
+    _ret = {'inst': inst, 'opts': opts, 'order2': order2, 'choices': choices, 'mode': mode, 'salt': salt}
+    if decoy:
+        _ret['decoy'] = decoy
+    return _ret
 
 
 def strategy(tier):
